@@ -29,7 +29,7 @@ OUTSIDE = ["cyclic references (the module asserts)", "syntactically invalid desc
 STUBS = []
 ASSUMPTIONS = ["formatters are compared through the text they emit for a sample string (the numeric colour mapping itself is C09's subject)"]
 
-IDS = ["XA", "XG.B", "XC"]
+IDS = ["XA", "XG.B.C", "XC"]          # the dotted id is written as three nested dictionaries
 FG = ["", "-", "RED", "196", "g5", "( 1,2, 3)", "0"]
 BG = ["", "-", "BLUE", "g5", "0"]
 MODS = [[], ["bold"], ["no_bold", "crossed"], ["bold", "crossed"], ["no_crossed", "underline"]]
@@ -117,13 +117,14 @@ def _mods_dict(md):
 
 
 def _nest(flat: Dict[str, str]) -> Dict[str, Any]:
+    """dotted ids as nested dictionaries, one level per dot"""
     out: Dict[str, Any] = {}
     for k, v in flat.items():
-        if "." in k:
-            a, b = k.split(".", 1)
-            out.setdefault(a, {})[b] = v
-        else:
-            out[k] = v
+        parts = k.split(".")
+        cur = out
+        for part in parts[:-1]:
+            cur = cur.setdefault(part, {})
+        cur[parts[-1]] = v
     return out
 
 
